@@ -102,6 +102,13 @@ Theorem C05_ddm_rate_exact_reals : forall (p : @ddm_params NumR) errs, errs <> [
   d_rate (ddm_feed p ddm_e0 0 errs) = (IZR (n_err errs) / IZR (Z.of_nat (length errs)))%R.
 Proof. exact ddm_rate_exact. Qed.
 
+(** exact arithmetic (reals): EDDM's mean distance between errors = (index of the last error of the epoch)
+    / (number of errors) = the mean of the gaps between consecutive errors *)
+Theorem C05_eddm_mean_distance_exact_reals : forall (p : @eddm_params NumR) oks,
+  let e := eddm_feed p eddm_e0 0 oks in
+  (0 < e_n_errors e)%Z -> e_mean e = (IZR (e_idx_curr e) / IZR (e_n_errors e))%R.
+Proof. exact eddm_mean_exact. Qed.
+
 Print Assumptions C05_ddm_rule.
 Print Assumptions C05_eddm_rule.
 Print Assumptions C05_stepd_rule.
@@ -110,3 +117,4 @@ Print Assumptions C05_ddm_recs.
 Print Assumptions C05_eddm_recs.
 Print Assumptions C05_stepd_recs.
 Print Assumptions C05_ddm_rate_exact_reals.
+Print Assumptions C05_eddm_mean_distance_exact_reals.
